@@ -37,7 +37,8 @@ impl RaftIndexInnerManager {
             .await?;
         let meta = file.metadata().await?;
         //log::info!("index file len:{}",meta.len());
-        let (last_applied_log, raft_index) = if meta.len() <= 20 {
+        let (last_applied_log, raft_index) = if meta.len() <= 10 {
+            // 10 bytes is the largest file the init branch below ever wrote; anything longer holds saved state
             //init write
             let index = RaftIndex::default();
             /*
